@@ -208,7 +208,7 @@ def run(tier, seed, replay):
                     "(line, column) order of the printed position",
                     nat["bound"], nat["cases"], nat["violations"], nontrivial=nat["nontrivial"],
                     samples=nat["samples"], time_s=time.time() - t0)
-    explained = any(i.status == "failed" for i in chk.items) or chk.known_printed
+    explained = chk.has_unlisted_failure()
     if nat["violations"] and not explained:
         v = nat["violations"][0]
         chk.report_violation("C08.bounded.formats", {"property": "C08", "obligation": "C08.bounded.formats",
